@@ -33,10 +33,11 @@ impl Report {
     }
     pub fn sample(&mut self, v: serde_json::Value) { if self.samples.len() < 6 { self.samples.push(v); } }
     pub fn violation(&mut self, property: &str, class: &str, what: String, replay: serde_json::Value) {
-        if self.violations.len() < 50 {
+        let same = self.violations.iter().filter(|v| v.class == class && v.property == property).count();
+        if same < 3 && self.violations.len() < 200 {
             self.violations.push(Violation { property: property.into(), class: class.into(), what, replay });
         }
-        self.count(&format!("violation:{}", class));
+        self.count(&format!("violation:{}:{}", property, class));
     }
     pub fn write(&self, path: &Path) {
         let v = serde_json::json!({
@@ -61,7 +62,10 @@ impl Report {
     pub fn merge(&mut self, o: Report) {
         self.evaluations += o.evaluations;
         self.nontrivial.extend(o.nontrivial);
-        for v in o.violations { if self.violations.len() < 50 { self.violations.push(v); } }
+        for v in o.violations {
+            let same = self.violations.iter().filter(|x| x.class == v.class && x.property == v.property).count();
+            if same < 3 && self.violations.len() < 200 { self.violations.push(v); }
+        }
         for s in o.samples { if self.samples.len() < 6 { self.samples.push(s); } }
         for (k, n) in o.dist { *self.dist.entry(k).or_insert(0) += n; }
         if o.slowest_event_s > self.slowest_event_s { self.slowest_event_s = o.slowest_event_s; }
